@@ -287,7 +287,15 @@ func runC11(t *testing.T, tape *sim.Tape, tier string) *Outcome {
 	if !bigMode && tape.Draw(4, "statusargs") == 3 {
 		for _, r := range protoReqs {
 			var b []byte
-			b = append(b, fmt.Sprintf("*%d\r\n", len(r.Args))...)
+			// a quarter of these requests carry one more element at their end that has no payload of its own (a null
+			// bulk, an empty or a null array): whatever the server does with the surplus element of the complete
+			// request (the fault-free run tells), a cut inside that element's header leaves the request incomplete
+			extra := ""
+			if tape.Draw(4, "payloadless") == 3 {
+				extra = []string{"$-1\r\n", "*0\r\n", "*-1\r\n"}[tape.Draw(3, "payloadlesskind")]
+				o.stat("requests_ending_with_a_payloadless_element", 1)
+			}
+			b = append(b, fmt.Sprintf("*%d\r\n", len(r.Args)+map[bool]int{true: 1, false: 0}[extra != ""])...)
 			for i, a := range r.Args {
 				if _, err := strconv.Atoi(a); i > 0 && err == nil && tape.Draw(2, "asinteger") == 1 {
 					// a numeric argument as an integer-typed element (:12)
@@ -303,6 +311,7 @@ func runC11(t *testing.T, tape *sim.Tape, tier string) *Outcome {
 					b = append(b, resp.Bs(a).Encode()...)
 				}
 			}
+			b = append(b, extra...)
 			r.Bytes = b
 		}
 		o.stat("pipelines_with_simple_string_arguments", 1)
